@@ -5,7 +5,7 @@
    The theorems say what every accepted event list satisfies. *)
 From Coq Require Import List Arith Bool.
 Import ListNotations.
-Require Import CoStream CoFacts CoTake CoOnce.
+Require Import CoStream CoFacts CoTake CoOnce CoDrop.
 
 (* within the limit: with limit l >= 1 on for_each / try_for_each, at no point are more than l pushed items incomplete *)
 Theorem C13_within_limit c l es s k : limited c l -> 1 <= l -> run c (init c) es k = (s, None) -> cnt (works s) <= l.
@@ -46,3 +46,11 @@ Example C13_witness :
   snd (run c (init c) [ESrc (Some 0); ECall 1 0 None; ESrc (Some 1); EDone 1 0 None; ECall 1 1 None; ESrc None; EDone 1 1 None; EResult RUnit] 0) = None /\
   snd (run c (init c) [ESrc (Some 0); ECall 1 0 None; ESrc (Some 1); ECall 1 1 None] 0) = Some 3.
 Proof. vm_compute. split; reflexivity. Qed.
+
+(* "dropping it earlier drops every in-flight closure future before the drop returns": in an accepted history whose final state is settled (no work
+   in flight - the acceptance condition the driver evaluates at the end of every trace of the crate, which always ends with the drop of the
+   operation's future), every closure future that was created has completed or has been dropped unfinished within the history. *)
+Theorem C13_no_closure_future_outlives_the_operation c es s k : run c (init c) es k = (s, None) -> settled s = true ->
+  forall stg j idx, In (ECall stg j idx) es -> (exists e, In (EDone stg j e) es) \/ In (EDropWork stg j) es.
+Proof. exact (closure_futures_completed_or_dropped c es s k). Qed.
+Print Assumptions C13_no_closure_future_outlives_the_operation.
